@@ -9,6 +9,7 @@
 #include <xercesc/util/XMLMutexMgr.hpp>
 #include <xercesc/util/regx/RegularExpression.hpp>
 #include <xercesc/util/TransService.hpp>
+extern "C" uint64_t sim_icu_converter_calls();      // sim/icuwrap.cpp
 #include <xercesc/util/XMLInitializer.hpp>
 #include <xercesc/framework/XMLGrammarPoolImpl.hpp>
 #include <xercesc/framework/MemBufFormatTarget.hpp>
@@ -217,7 +218,7 @@ public:
     bool inProcessReexecutionReproducesClass() const override { return false; }
     bool runEachInForkedChild() const override { return true; }
     uint64_t defaultRuns(const std::string& tier) const override { return tier == "quick" ? 450 : 12000; }
-    void globalInit() override { g_symtab.load(); }     // once per worker, before the per-run children are forked
+    void globalInit() override { g_symtab.load(); setenv("LC_ALL", "C.UTF-8", 1); }      // (the local code page is UTF-8: XMLString::transcode of non-ASCII text then has real work to do)     // once per worker, before the per-run children are forked
 
     Json generate(uint64_t seed, uint64_t index, const std::string& tier) override {
         Rng wr = runRng(seed, index, "workload"), sr = runRng(seed, index, "sched");
@@ -245,7 +246,8 @@ public:
                 } else if (k < 70) { op.set("op", "dom"); op.set("uniq", uniq); op.set("n", wr.range(2, 9)); op.set("doctype", wr.coin()); op.set("root", wr.coin() ? "r" : "root"); }
                 else if (k < 82) { static const char* pats[] = { "\\p{Lu}\\p{Ll}*\\d+", "[\\i-[:]][\\c-[:]]*", "\\p{IsGreek}+|\\p{Nd}{2,3}", "(a|b)*c\\s\\w+", "[^\\p{Zs}]+@\\P{L}+", "\\p{IsBasicLatin}+\\.\\p{Sc}" }; static const char* ins[] = { "Hello42", "abc:def", "12", "ababc x_y", "a@1", "Ab.$" };
                     op.set("op", "regex"); op.set("pattern", pats[wr.below(6)]); op.set("input", ins[wr.below(6)]); }
-                else if (k < 90) { op.set("op", "transcode"); op.set("text", wr.coin() ? "plain ascii text" : "caf\xc3\xa9 \xe6\xbc\xa2"); static const char* encs[] = { "ISO-8859-1", "UTF-8", "windows-1252", "IBM037", "Shift_JIS" }; op.set("enc", encs[wr.below(5)]); }
+                else if (k < 90) { op.set("op", "transcode"); { unsigned tk = (unsigned)wr.below(4); std::string cjk; for (int q = 0, nq = 8 + (int)wr.below(40); q < nq; q++) cjk += (q & 1) ? "\xe5\xad\x97" : "\xe6\xbc\xa2";      // mostly three-byte characters: the local-code-page form is far longer than the UTF-16 form (the transcoder's retry path)
+                        op.set("text", tk == 0 ? std::string("plain ascii text") : tk == 1 ? std::string("caf\xc3\xa9 \xe6\xbc\xa2") : cjk); } static const char* encs[] = { "ISO-8859-1", "UTF-8", "windows-1252", "IBM037", "Shift_JIS" }; op.set("enc", encs[wr.below(5)]); }
                 else if (k < 95) { op.set("op", "exception"); op.set("text", "t" + std::to_string(uniq)); }
                 else { op.set("op", "create_destroy"); op.set("n", wr.range(1, 4)); }
                 ops.push(op);
@@ -297,6 +299,7 @@ public:
         g_run.ticks = st.steps; g_run.logHash = st.decisionHash;
         static const char* kn[] = { "lock", "unlock", "alloc", "op", "start", "end" };
         uint64_t sw = 0; for (int k = 0; k < baton::K_KINDS; k++) { g_run.probes[std::string("point_") + kn[k]] += st.points[k]; g_run.faults[std::string("preempt_at_") + kn[k]] += st.switches[k]; sw += st.switches[k]; }
+        { static uint64_t seen = 0; uint64_t now = sim_icu_converter_calls(); g_run.probes["icu_converter_calls"] += now - seen; seen = now; }
         g_run.probes["lock_contended"] += st.contended; g_run.probes[std::string("policy_") + (plan.at("sched").geti("policy") == 0 ? "uniform" : plan.at("sched").geti("policy") == 1 ? "pct" : "burst")]++; if (sh.pool || plan.getb("shared_pool")) g_run.probe("shared_locked_pool");
         o.nontrivial = sw > nthreads; o.fingerprint = st.decisionHash;
         // ---- verdict: unknown race reports first, then digests, then known findings
